@@ -255,6 +255,15 @@ func generated(a lib.Args) []RoundSpec {
 		d := genBadDB(r.Fork(), []int{4, 8}[i%2])
 		out = append(out, RoundSpec{Kind: "db", DB: &d})
 	}
+	// first use of a relation in Association mode / Delete with Select(association) by everybody at once
+	nAssoc := 8
+	if thorough {
+		nAssoc = 60
+	}
+	for i := 0; i < nAssoc; i++ {
+		d := genAssocFirst(r.Fork(), i, []int{8, 4, 12, 6}[i%4], thorough)
+		out = append(out, RoundSpec{Kind: "db", DB: &d})
+	}
 	for i := 0; i < nStag; i++ {
 		d := genStaggered(r.Fork(), []int{6, 4, 8, 3}[i%4])
 		out = append(out, RoundSpec{Kind: "db", DB: &d})
@@ -266,7 +275,7 @@ func generated(a lib.Args) []RoundSpec {
 	return out
 }
 
-const ruleText = "rounds = (a) database rounds: G goroutines released together on ONE shared *gorm.DB (fresh gorm.Open per round, SQLite file, cold or warm schema cache, with/without PrepareStmt, 1 or 4 connections), each running a fully expanded program of create/create_batch/find/first/count/preload/joins/update/updates/delete/tx/association ops on its own id range (plus rounds where, step by step behind a spin barrier, all goroutines issue the SAME never-issued statement text under PrepareStmt, and rounds on a handle opened without PrepareStmt where every operation runs on its own Session{PrepareStmt:true}; shared Session handles carrying 1-7 Joins/Where/Order/Scopes/Select/Omit items to which every goroutine adds one more; first use of statement texts whose preparation fails; cold parents sharing a warm child; serializer-typed fields; staggered cold starts on a soft-delete model with a slow namer) over 1-3 families of the 39-type pool (chains, cycle, stars, self reference, pairs, many2many, embedded, unrelated), compared with the same programs run serially on a fresh database; one round in ten shares a Session handle whose first condition is a single Or; (b) protocol rounds: G goroutines calling schema.Parse on one shared fresh sync.Map with seeded delays in the namer callbacks, coarse trace (start/build/return) replayed in the Coq model. Every round runs in a child process built with -race; race reports are normalised to pairs of gorm functions. Each round gives 2 cases (3 with the Or handle): part 0 = results/trace/other races, part 1 = races in schema initialisation, part 2 = Where.Build swap. distinct = distinct (kind, G, cache, families, programs) shapes; non-trivial = G >= 2 and (db) at least 2 ops per goroutine or (proto) related model types"
+const ruleText = "rounds = (a) database rounds: G goroutines released together on ONE shared *gorm.DB (fresh gorm.Open per round, SQLite file, cold or warm schema cache, with/without PrepareStmt, 1 or 4 connections), each running a fully expanded program of create/create_batch/find/first/count/preload/joins/update/updates/delete/tx/association ops on its own id range (plus rounds where, step by step behind a spin barrier, all goroutines issue the SAME never-issued statement text under PrepareStmt, and rounds on a handle opened without PrepareStmt where every operation runs on its own Session{PrepareStmt:true}; shared Session handles carrying 1-7 Joins/Where/Order/Scopes/Select/Omit items to which every goroutine adds one more; first use of statement texts whose preparation fails; cold parents sharing a warm child; serializer-typed fields; staggered cold starts on a soft-delete model with a slow namer; failing models (parse error in the relation phase) used by everybody step by step, each step a first use again, namer sleeping in ColumnName; the first Association-mode / Delete-with-Select(association) use of a relation by all goroutines at the same step) over 1-3 families of the 39-type pool (chains, cycle, stars, self reference, pairs, many2many, embedded, unrelated), compared with the same programs run serially on a fresh database; one round in ten shares a Session handle whose first condition is a single Or; (b) protocol rounds: G goroutines calling schema.Parse on one shared fresh sync.Map with seeded delays in the namer callbacks (a quarter of the rounds, two thirds of the error-path ones: same first type for everybody and a sleep between the second look-up and LoadOrStore), coarse trace (start/build/return) replayed in the Coq model. Every round runs in a child process built with -race; race reports are normalised to pairs of gorm functions. Each round gives 2 cases (3 with the Or handle): part 0 = results/trace/other races, part 1 = races in schema initialisation, part 2 = Where.Build swap. distinct = distinct (kind, G, cache, families, programs) shapes; non-trivial = G >= 2 and (db) at least 2 ops per goroutine or (proto) related model types"
 
 func yn(b bool) string {
 	if b {
